@@ -136,7 +136,7 @@ func genC14(r *rng.R, tier string, steer bool, idx int) *trace.Trace {
 	live := map[string]bool{}
 	if t.Config.Mode == "lazy" || t.Config.Mode == "mixed" {
 		t.Ops = append(t.Ops, trace.Op{Op: "bt_enable_lazy", Lazy: &trace.LazyCfg{Threshold: rng.Pick(r, []float64{0.01, 0.05, 0.2, 0.9}),
-			MaxDelayNs: int64(rng.Pick(r, []int{0, 1, 1000000, 3600000000000})), Batch: rng.Pick(r, []int{1, 2, 10, 100})}})
+			MaxDelayNs: int64(rng.Pick(r, []int{0, 1, 3600000000000})), Batch: rng.Pick(r, []int{1, 2, 10, 100})}})
 	}
 	for i := 0; i < n; i++ {
 		name := rng.Pick(r, names)
